@@ -1,6 +1,7 @@
 package main
 
 import (
+	"strings"
 	"fmt"
 	"math"
 	"math/rand"
@@ -33,7 +34,9 @@ var smlKeywords = map[string]bool{"L": true, "A": true, "B": true, "BOOLEAN": tr
 // valid variable names that some conversion routine would also read as a value
 // (none of them a keyword of the SML text state in any letter case, so they stay expressible)
 var valueLikeNames = []string{"true", "false", "True", "TRUE", "False", "FALSE", "nan", "NaN", "Inf", "inf", "nil", "null",
-	"e5", "E1", "_", "__", "b0", "x1F", "W", "H", "S1F1", "tt", "ff", "yes", "no"}
+	"e5", "E1", "_", "__", "b0", "x1F", "W", "H", "S1F1", "tt", "ff", "yes", "no",
+	// close to a type name without being one
+	"F1", "f2", "F3", "F16", "I3", "i16", "U16", "u3", "L1", "B2", "A1", "BOOL", "LIST"}
 
 func (g *nameGen) fresh(r *rand.Rand) string {
 	if r.Intn(25) == 0 {
@@ -43,6 +46,34 @@ func (g *nameGen) fresh(r *rand.Rand) string {
 			dup = dup || u == s
 		}
 		if !dup {
+			g.used = append(g.used, s)
+			return s
+		}
+	}
+	if r.Intn(30) == 0 && len(g.used) > 0 {
+		// a name that differs from an earlier one in letter case only (names are case sensitive)
+		u := g.used[r.Intn(len(g.used))]
+		s := strings.ToUpper(u)
+		if s == u {
+			s = strings.ToLower(u)
+		}
+		dup := s == u
+		for _, x := range g.used {
+			dup = dup || x == s
+		}
+		if !dup {
+			g.used = append(g.used, s)
+			return s
+		}
+	}
+	if r.Intn(20) == 0 && len(g.used) > 0 {
+		// an earlier name with an index group of its own: what an expansion would generate for it
+		s := g.used[r.Intn(len(g.used))] + fmt.Sprintf("[%d]", r.Intn(2))
+		dup := false
+		for _, x := range g.used {
+			dup = dup || x == s
+		}
+		if !dup && !strings.HasPrefix(s, "...") {
 			g.used = append(g.used, s)
 			return s
 		}
